@@ -22,6 +22,12 @@ def reenc_ok(want_hex, out_line):
     return complete, same, out
 
 
+def shape_of(meta, cls, line):
+    d = codec.parse_dump(line)
+    sel = set(int(k) for k in meta['classes'][cls].get('selectors', {}))
+    return tuple(sorted((f, len(val)) for f, val in d.items() if val.startswith('x'))) + tuple(sorted((f, val) for f, val in d.items() if f in sel))
+
+
 def run(v, tier, seed, replay=None):
     meta, _ = common.translate()
     ok, failed, info = coqrun.prove(v, 'C02', ['Inst/ImagesEq.v'])
@@ -58,18 +64,39 @@ def run(v, tier, seed, replay=None):
             bb = bb[:len(b)]
             if bytes(bb) != b:
                 cases.append({'cls': c['cls'], 'idx': c['idx'], 'hex': bytes(bb).hex(), 'src': c['src'], 'mode': 'subst@%d' % k, 'of': c})
+    # systematic part: for one image per class (the shortest), every byte between the base header and the end is
+    # overwritten in turn with a small value, a boundary value and a random one (thorough: every distinct image)
+    by_cls = {}
+    for c in cases[:nimg]:
+        if c['cls'] not in by_cls or len(c['hex']) < len(by_cls[c['cls']]['hex']):
+            by_cls[c['cls']] = c
+    seen_img = set()
+    for c in (list(by_cls.values()) if tier == 'quick' else cases[:nimg]):
+        if c['hex'] in seen_img or len(c['hex']) > (2 * 160 if tier == 'quick' else 2 * 600):
+            continue
+        seen_img.add(c['hex'])
+        b = bytes.fromhex(c['hex'])
+        for k in range(16, len(b)):
+            vals = {0, rng.randrange(1, 8), 0x80 | rng.getrandbits(7), 0xff} if tier == 'quick' else {0, 1, 2, 3, 7, 8, 0x7f, 0x80, 0xff, rng.getrandbits(8), rng.getrandbits(8)}
+            for val in sorted(vals - {b[k]}):
+                bb = bytearray(b)
+                bb[k] = val
+                cases.append({'cls': c['cls'], 'idx': c['idx'], 'hex': bytes(bb).hex(), 'src': c['src'], 'mode': 'subst@%d' % k, 'of': c})
     lines = ['D %d %s' % (c['idx'], c['hex']) for c in cases]
     mo = codec.run_model(mexe, lines)
     io = codec.run_impl(hexe, lines)
     ndis, nbad, shape_kept, complete_imgs = 0, 0, 0, 0
+    index_of = {id(c): k for k, c in enumerate(cases)}
+    first_dis = None
     per_class = collections.Counter()
     for c, m, i in zip(cases, mo, io):
         if not codec.lines_agree(m, i):
             ndis += 1
-            if ndis == 1:
-                v.violation('corr:C02:%s' % c['cls'], 'model and implementation disagree on decode-then-encode of a %s %s: %s | %s' % (c['cls'], c['mode'], m[:120], i[:120]),
-                            {'class': c['cls'], 'image_hex': c['hex'][:4000], 'model': m[:600], 'impl': i[:600]}, no_input=True)
-            continue
+            if first_dis is None:
+                first_dis = (c, m, i)
+            # the search for a concrete failing input goes on with the implementation alone
+            if not i.startswith('D '):
+                continue
         r = reenc_ok(c['hex'], i)
         if r is None:
             if c['mode'] == 'image':
@@ -92,7 +119,10 @@ def run(v, tier, seed, replay=None):
                     c['cls'], c['src'], k, len(out) // 2, len(c['hex']) // 2), {'class': c['cls'], 'image_hex': c['hex'][:4000], 'reencoded_hex': out[:4000]})
         else:
             # shape unchanged = still decoded completely and re-encoded to the same number of bytes (+ the same padding)
-            base = reenc_ok(c['of']['hex'], io[cases.index(c['of'])]) if False else None
+            # the shape of an object: the lengths of its variable-length members and the values of its variant selectors,
+            # as the library decodes them (a substituted length member changes the shape: outside the property)
+            if shape_of(meta, c['cls'], i) != shape_of(meta, c['cls'], io[index_of[id(c['of'])]]):
+                continue
             if complete and len(out) - len(c['hex']) in (0, 2, 4, 6) and len(out) // 2 - len(c['hex']) // 2 == (len(c['hex']) // 2 + 3) // 4 * 4 - len(c['hex']) // 2 or (complete and len(out) == len(c['hex'])):
                 shape_kept += 1
                 if not same:
@@ -130,6 +160,10 @@ def run(v, tier, seed, replay=None):
             k = next((x for x in range(0, min(len(out), len(hx)), 2) if out[x:x + 2] != hx[x:x + 2]), min(len(out), len(hx))) // 2
             v.violation('variant:%s' % c['cls'], 'a %s as the library itself encodes it (layout variant selected by its members) does not survive decode-then-encode: %d bytes in, %s out, first difference at byte %d' % (
                 c['cls'], len(hx) // 2, (str(len(out) // 2) + ' bytes') if r else out, k), {'class': c['cls'], 'write_case': c['line'][:2000], 'image_hex': hx[:4000], 'reencoded': out[:4000]})
+    if first_dis and not nbad:
+        c, m, i = first_dis
+        v.violation('corr:C02:%s' % c['cls'], 'model and implementation disagree on decode-then-encode of a %s %s: %s | %s' % (c['cls'], c['mode'], m[:120], i[:120]),
+                    {'class': c['cls'], 'image_hex': c['hex'][:4000], 'model': m[:600], 'impl': i[:600]}, no_input=True)
     if not ok and not v.violations:
         for fl in failed:
             v.violation('coq:' + fl['lemma'], 'proof obligation %s (%s:%d) no longer checks: %s' % (fl['lemma'], fl['file'], fl['line'], fl['error'][:200]),
@@ -138,7 +172,7 @@ def run(v, tier, seed, replay=None):
         'obligations': info['obligations'], 'discharged': info['discharged'], 'checker_cmd': info['checker_cmd'],
         'trusted_base': TRUSTED + info['print_assumptions'], 'failed_obligations': info['failed'],
         'evaluations': len(cases), 'distinct_nontrivial': len(set(c['hex'] for c in cases)),
-        'rule': 'every distinct object image (<= 4 KiB) cut from the Vector-produced reference logs of the repository (%d occurrences, %d distinct images of %d classes) is decoded and encoded again by the extracted model and by the library; plus %d random substitutions per image (bytes with boundary values, aligned 16/32-bit values) — a substitution counts when the shape is unchanged (still decoded completely, same encoded length): then every byte must come back except members the encoder recomputes by design, which must come back as in the original image. Non-trivial = distinct byte string.' % (
+        'rule': 'every distinct object image (<= 4 KiB) cut from the Vector-produced reference logs of the repository (%d occurrences, %d distinct images of %d classes) is decoded and encoded again by the extracted model and by the library; plus %d random substitutions per image (bytes with boundary values, aligned 16/32-bit values) and, for the shortest image of every class (thorough: every distinct image), every single byte behind the base header overwritten in turn with a small, a boundary and a random value — a substitution counts when the shape is unchanged (still decoded completely, the same lengths of all variable-length members and the same variant selectors as decoded by the library, same encoded length): then every byte must come back except members the encoder recomputes by design, which must come back as in the original image. Non-trivial = distinct byte string.' % (
             j['total_occurrences'], nimg, len(per_class), nsub),
         'images': nimg, 'library_encoded_layout_variants': nvariants, 'images_decoded_completely': complete_imgs, 'substitutions_with_unchanged_shape': shape_kept,
         'images_per_class': dict(per_class.most_common(12)), 'correspondence_disagreements': ndis, 'oracle_failures': nbad,
